@@ -66,6 +66,11 @@ type RefClient struct {
 	// Events delivered, per rid, in order: "event" names with seq if any
 	EventLog []ClientEvent
 	Closed   bool
+	// Ambiguous lists rids for which a resource response carried an error
+	// entry: whether that counts as a direct subscription is left open (the
+	// gateway keeps it for a failed get and drops it for a refused access,
+	// and the two look alike to the client).
+	Ambiguous map[string]bool
 	// ByGet lists the rids whose data the client last received through a get
 	// response (frame index), i.e. without any subscription.
 	ByGet map[string]int
@@ -423,7 +428,11 @@ func (c *RefClient) response(id int, result json.RawMessage, isErr bool, code st
 		if json.Unmarshal(result, &rr) == nil && rr.RID != nil && c.Proto >= 1002000 {
 			c.addResources(&rr.resourceSet)
 			if e, isErrEntry := rr.Errors[*rr.RID]; isErrEntry && e != nil {
-				// access error in place of the resource: not subscribed
+				// error in place of the resource: not counted, and ambiguous from now on
+				if c.Ambiguous == nil {
+					c.Ambiguous = map[string]bool{}
+				}
+				c.Ambiguous[*rr.RID] = true
 			} else {
 				c.Direct[*rr.RID]++
 				if !c.Holds(*rr.RID) {
